@@ -1,12 +1,16 @@
 #!/bin/bash
-# applies every seeded change in turn and runs the quick check of its property;
-# prints caught/MISSED per change.  /repo/src must be clean.
+# applies every seeded change in turn and runs the quick check of its property
+# under several VERIF_SEED values; prints how often each change is reported.
+# /repo/src must be clean.  usage: sweep_seeds.sh [seed values...]
 cd /verif
+seeds=${@:-1 2}
 for d in seeded/*/; do
   n=$(basename $d); p=${n%%-*}
-  out=$(tools/try_seed.sh $n $p 2>&1 | tail -1)
-  case "$out" in
-    *"exit=1"*) echo "caught  $n" ;;
-    *) echo "MISSED  $n ($out)" ;;
-  esac
+  hit=0; tot=0
+  for s in $seeds; do
+    out=$(VERIF_SEED=$s tools/try_seed.sh $n $p 2>&1 | tail -1)
+    tot=$((tot+1))
+    case "$out" in *"exit=1"*) hit=$((hit+1)) ;; esac
+  done
+  if [ $hit -eq $tot ]; then echo "caught $hit/$tot  $n"; else echo "WEAK   $hit/$tot  $n"; fi
 done
